@@ -61,6 +61,10 @@ DIRECTED_ENVS = [
       "VT_d1": "scalar\\\nvalue", "VT_d2": ["\\\n", "\n\\", "$'\\n'", "\\!"]}, []),
     ({"VT_d3": ["tab\\\there", "cr\\\rhere", "sp\\ here", "nl\nplain", "\"\\\n\""], "VT_d4": "\\\n", "VT_d5": ["", " ", "\n"]},
      ["VT_d4"]),
+    # names that are substrings / prefixes / suffixes of one another: the export attribute belongs to the exact name
+    ({"VT_P": "p", "VT_PV": "pv", "VT_D": "d", "VT_ED": "ed", "VT_USE": "u", "VT_USE_EXPAND": "ux", "VT_OO": "oo", "VT_ROOT": "r",
+      "VT_T": "t", "VT_TX": ["t", "x"]}, ["VT_PV", "VT_ED", "VT_USE_EXPAND", "VT_ROOT", "VT_TX"]),
+    ({"VT_P": "p", "VT_PV": "pv", "VT_D": "d", "VT_ED": ["e", "d"], "VT_USE": "u", "VT_USE_EXPAND": "ux"}, ["VT_P", "VT_D", "VT_USE"]),
 ]
 
 
@@ -71,6 +75,10 @@ def gen_env(rng, bulk=False):
         gen_bulk(rng, env, nonexp)
     for i in range(rng.choice([1, 2, 3, 5, 8])):
         name = "VT_%s%d" % (rng.choice(["a", "B", "x_", "Q9"]), i)
+        if rng.random() < 0.3:
+            name = rng.choice(["VT_P", "VT_PV", "VT_PVR", "VT_D", "VT_ED", "VT_USE", "VT_USE_EXPAND", "VT_R", "VT_ROOT", "VT_EROOT"])
+            if name in env:
+                continue
         if rng.random() < 0.25:
             env[name] = [gen_value(rng) for _ in range(rng.choice([1, 2, 3]))]
         else:
